@@ -256,7 +256,7 @@ class PipeCore(object):
         while len(self.hbuf) >= 24:
             h = wire.parse_header(self.hbuf[:24])
             known = h['cmdw'] in wire.WORD_CMD
-            if not known or h['magic'] != (h['cmdw'] ^ wire.M32) or h['len'] > 16 * 1024 * 1024:
+            if not known or h['magic'] != (h['cmdw'] ^ wire.M32) or h["len"] > 64 * 1024 * 1024:
                 self.rec.ev('tx_garbage', reason='header', cmdw=wire.limbs(h['cmdw']), magic=wire.limbs(h['magic']))
                 self.hbuf = bytearray()
                 return
